@@ -69,6 +69,7 @@ def collect_sites(facts):
                     pre = r["st"].buf[: r["st"].buf.index(p)]
                     sc = emit.scan_scheme(pre)
                     ins = sc["in_string_end"]
+                    is_tpl = ins and sc["ctx_end"] == ("format", 2)
                     mp = p[1]
                     if mp.get("v") == "mapped":
                         for conds, v in mp["elems"]:
@@ -76,9 +77,9 @@ def collect_sites(facts):
                             while isinstance(vv, dict) and vv.get("v") in ("ok", "some"):
                                 vv = vv["x"]
                             if isinstance(vv, dict) and vv.get("v") == "str":
-                                sites.append(Site(key, "element [%s]" % emit.canon_conds(conds), vv["parts"], in_string=ins, template=ins))
+                                sites.append(Site(key, "element [%s] of [%s]" % (emit.canon_conds(conds), r["cond"] or "unconditional"), vv["parts"], in_string=ins, template=is_tpl))
                             elif isinstance(vv, dict) and vv.get("v") == "hole":
-                                sites.append(Site(key, "element [%s]" % emit.canon_conds(conds), [("h", vv)], in_string=ins, template=ins))
+                                sites.append(Site(key, "element [%s] of [%s]" % (emit.canon_conds(conds), r["cond"] or "unconditional"), [("h", vv)], in_string=ins, template=is_tpl))
     for M in codegen.MANAGERS:
         for meth in ("get_printer", "get_file_printer", "get_matcher"):
             k = codegen.mgr_key(facts, M, meth)
@@ -158,8 +159,11 @@ def run(c, facts, tier):
         for b_ in sc["bad_escapes"]:
             c.ob("C04.escape-table", s.where, "%s escape %s" % (s.what, b_), b_[1] in legal, "escape `%s` written by the generator inside a string literal is not a Guile string escape: the program does not read back" % b_, witness="-printf '\\c'" if b_ == "\\c" else None)
         # ---- taint
-        for h, in_str, depth, esc in sc["holes"]:
+        for hi_, (h, in_str, depth, esc) in enumerate(sc["holes"]):
             nholes += 1
+            # which reader decodes the literal this hole sits in: Guile's string reader only, or also `format`
+            # (the literal is the control string: second argument of a (format dest "..." args..) form)
+            tpl = s.template or (in_str and not frag and sc["hole_ctx"][hi_] == ("format", 2))
             if h.get("v") == "join":
                 continue  # elements are their own sites
             srcs = emit.tainted(h)
@@ -171,16 +175,20 @@ def run(c, facts, tier):
             if not srcs:
                 continue
             hk = emit.canon(h)
-            key = (s.where, hk, in_str)
+            key = (s.where, hk, in_str, tpl)
             if key in seen_taint:
                 continue
             seen_taint.add(key)
-            dangerous = set(guile["format_dangerous"] if s.template else guile["string_dangerous"])
+            dangerous = set(guile["format_dangerous"] if tpl else guile["string_dangerous"])
             if not in_str:
                 c.ob("C04.taint", s.where, "hole %s outside a string literal" % hk, False, "user text %s is interpolated outside any string literal in `%s`: it is read as code" % (srcs, emit.show_parts(s.parts)[:80]))
                 continue
             # discharge 1: sanitiser
             callee = h.get("callee") if h.get("kind") == "call" else None
+            want_ctx = "template" if tpl else "string"
+            if callee in good_sani and good_full[callee][0] != want_ctx:
+                c.ob("C04.taint", s.where, "hole %s in a string literal" % hk, False, "the text is escaped by %s for the `%s` context but the literal is read in the `%s` context: %s" % (callee, good_full[callee][0], want_ctx, "a `~` of the user's text stays a directive" if want_ctx == "template" else "the decoded value is not the user's string (every `~` is doubled)"), witness="-printf '~50%% done\\n'" if want_ctx == "string" else "-name 'a~b'")
+                continue
             if callee in good_sani and dangerous <= good_sani[callee]:
                 spec_ = h.get("spec") or ""
                 if "." in spec_:
@@ -201,7 +209,7 @@ def run(c, facts, tier):
                 s.where,
                 "hole %s in a string literal" % hk,
                 False,
-                "user text %s is interpolated raw inside a %s in `%s`; a value containing one of %s changes the structure of the program%s" % (srcs, "format template" if s.template else "string literal", emit.show_parts(s.parts)[:90], sorted(dangerous), " (wrong sanitiser: %s)" % callee if callee else ""),
+                "user text %s is interpolated raw inside a %s in `%s`; a value containing one of %s changes the structure of the program%s" % (srcs, "format template" if tpl else "string literal", emit.show_parts(s.parts)[:90], sorted(dangerous), " (wrong sanitiser: %s)" % callee if callee else ""),
                 witness=wit,
             )
     # manager-returned names are clean (they flow, unquoted, into the policy body)
